@@ -31,6 +31,8 @@ fn gen_cases(rng: &mut Rng, tier: Tier) -> Vec<Value> {
             cfg.jobs = (6, 18);
             // multi-task jobs and alternative places are only identifiable in a solution through tags
             cfg.tags = cfg.tags || cfg.multi_jobs || cfg.alt_places;
+            // one history in eight runs on long tours (the stochastic leg selection only samples from 16-32 legs on)
+            let cfg = if i % 8 == 7 { GenCfg::long_tours() } else { cfg };
             let sp = gen_problem(rng, &cfg);
             let ops: Vec<u64> = (0..steps).map(|_| rng.next() % 100_000).collect();
             json!({"k": "history", "sp": sp, "ops": ops, "relations": i % 3 == 1, "rseed": rng.next() % 1000})
